@@ -217,7 +217,9 @@ def shard(col, seq_idx, bound, horizon, max_execs, prop="C32"):
             outcomes = set()
             with sched.installed():
                 def run(ch):
-                    return run_schedule(sut, executor, seq, ch, horizon)
+                    # a fresh executor per explored schedule: whatever an executor instance carries from
+                    # one execution to the next must come from THIS schedule, not from an earlier one
+                    return run_schedule(sut, sut.executor(), seq, ch, horizon)
 
                 def on_exec(ch, res):
                     obs, s = res
